@@ -766,6 +766,22 @@ def nat_concatenate_projection(h):
                 ('projection without renames', nsrc), want, (seen, fields) if got[0] == 'ok' else got[:2])
 
 
+def nat_concatenate_keys(h):
+    """the target's primary key: the (renamed) key fields of the concatenated resources that made it into the target, no key
+    entry at all when there is none -- and the rows still validate against it"""
+    from dataflows import Flow, concatenate, set_primary_key
+    a = [{'id': i, 'kind': 'k%d' % i} for i in range(3)]
+    b = [{'ident': 10 + i, 'kind': 'z%d' % i} for i in range(2)]
+    for keyed, want_pk in (((), None), ((0,), ['id']), ((0, 1), ['id'])):
+        steps = [set_primary_key(['id'] if k == 0 else ['ident'], resources=k) for k in keyed]
+        got = h.run(lambda: Flow([dict(r) for r in a], [dict(r) for r in b], *steps,
+                                 concatenate({'id': ['ident'], 'kind': []}, dict(name='target', path='target.csv'))).results())
+        ok = got[0] == 'ok' and got[1][1].descriptor['resources'][0]['schema'].get('primaryKey') == want_pk and \
+            got[1][0] == [[{'id': r.get('id', r.get('ident')), 'kind': r['kind']} for r in a + b]] and got[1][1].valid
+        h.check(ok, P + 'concatenate.py::concatenate.func', ('primary keys of the concatenated resources', keyed), want_pk,
+                (got[1][1].descriptor['resources'][0]['schema'].get('primaryKey'), got[1][0]) if got[0] == 'ok' else got[:2])
+
+
 def nat_load_reuse(h):
     """a flow with a load step run twice (process() then results(); the documented way to get both stats and rows), and one load
     object used in two flows: every run appends the loaded resources once, after the existing ones, with all their rows"""
@@ -876,7 +892,7 @@ ITEMS = [
     Item('iterable_loader.naming', BA.sym_iterable_loader_naming, [], 'dataflows/helpers/iterable_loader.py::iterable_loader.process_datapackage'),
     Item('delete_resource.func', K10.sym_delete_resource, [], P + 'delete_resource.py::delete_resource.func'),
     Item('appenders', sym_appenders, [], 'dataflows/helpers/iterable_loader.py::iterable_loader.process_resources'),
-    Item('pipelines', None, [('whole-resource-steps', K10.nat_whole_resource_steps), ('conservation', nat_restructure), ('concatenate-in-place', nat_concatenate_in_place), ('concatenate-projection', nat_concatenate_projection), ('load-reuse', nat_load_reuse), ('duplicate-aliasing', nat_duplicate_aliasing)], None),
+    Item('pipelines', None, [('whole-resource-steps', K10.nat_whole_resource_steps), ('conservation', nat_restructure), ('concatenate-in-place', nat_concatenate_in_place), ('concatenate-projection', nat_concatenate_projection), ('concatenate-keys', nat_concatenate_keys), ('load-reuse', nat_load_reuse), ('duplicate-aliasing', nat_duplicate_aliasing)], None),
     Item('sources.package-phase', sym_sources_package, [], P + 'sources.py::sources.process_datapackage'),
     Item('recorded-findings', None, [('bounded', KF.nat_findings_c16)], 'dataflows/processors/sources.py::sources.process_datapackage'),
 ]
